@@ -144,4 +144,47 @@ theorem buildPaths_provenance (P : Point64 → Prop)
   · intro r hr; exact h r (by simpa using hr)
   · intro p hp; simp at hp
 
+theorem loop_no_adjacent_duplicates (preserve reverse : Bool) : ∀ (fuel : Nat)
+    (recs : Array (List Point64)) (i : Nat) (acc : List (List Point64)),
+    (∀ p ∈ acc, ∀ j, j + 1 < p.length → p[j]! ≠ p[j + 1]!) →
+    ∀ out, buildPathsLoop preserve reverse fuel recs i acc = some out →
+      ∀ p ∈ out, ∀ j, j + 1 < p.length → p[j]! ≠ p[j + 1]! := by
+  intro fuel
+  induction fuel with
+  | zero => intro recs i acc _ out ho; simp [buildPathsLoop] at ho
+  | succ f ih =>
+    intro recs i acc hacc out ho
+    unfold buildPathsLoop at ho
+    simp only [] at ho
+    split at ho
+    · simp only [Option.some.injEq] at ho
+      subst ho
+      intro p hp
+      exact hacc p (List.mem_reverse.mp hp)
+    · split at ho
+      · exact ih recs (i + 1) acc hacc out ho
+      · split at ho
+        · exact absurd ho (by simp)
+        · rename_i main news hcc
+          refine ih _ (i + 1) _ ?_ out ho
+          intro p hp
+          split at hp
+          · rename_i p' hb
+            rcases List.mem_cons.mp hp with hp | hp
+            · cases main with
+              | none => simp at hb
+              | some m =>
+                simp only [Option.bind_some] at hb
+                rw [hp]
+                exact Proofs.Out.build_no_adjacent_duplicates m reverse false p' hb
+            · exact hacc p hp
+          · exact hacc p hp
+
+theorem buildPaths_no_adjacent_duplicates (preserve reverse : Bool) (recs : List (List Point64))
+    (out : List (List Point64)) (ho : buildPaths preserve reverse recs = some out) :
+    ∀ p ∈ out, ∀ i, i + 1 < p.length → p[i]! ≠ p[i + 1]! := by
+  unfold buildPaths at ho
+  refine loop_no_adjacent_duplicates preserve reverse _ recs.toArray 0 [] ?_ out ho
+  intro p hp; simp at hp
+
 end Proofs.BuildPaths
